@@ -74,6 +74,36 @@ def strategy(tier):
     return st.one_of(_same_case(tier), _dyadic_case(tier), _dyadic_case(tier), _entropy_case(tier))
 
 
+def enumerate_cases(tier):
+    """Systematic part of the dyadic kind: sibling nodes of the dyadic tree reached in opposite orders. For every Levy mode,
+    every cache size of either object and every depth 1..6: history A asks for the left half of a node and then the right
+    half, history B for the right half first (both then refine one of the halves); targets are the node, both halves and
+    their quarters. Dyadic times of [0, 1] (exact), tolerance 2^-12-ish from the allowed list."""
+    import os
+    import random
+    seed = int(os.environ.get("VERIF_SEED", "1") or 1)
+    idx = 0
+    for levy in ("none", "space-time", "davie", "foster"):
+        for cache_a, cache_b in ((None, None), (45, None), (None, 1), (45, 45), (1, 5), (0, None), (None, 0)):
+            for depth in (1, 2, 3, 4, 6):
+                idx += 1
+                rnd = random.Random(seed * 5003 + idx)
+                k = rnd.randrange(2 ** (depth - 1))
+                w = 2.0 ** -(depth - 1)
+                lo, hi = k * w, (k + 1) * w
+                mid = 0.5 * (lo + hi)
+                q1, q3 = 0.5 * (lo + mid), 0.5 * (mid + hi)
+                left, right = ["raw", lo, mid], ["raw", mid, hi]
+                refine = [["raw", lo, q1], ["raw", q1, mid]] if rnd.random() < 0.5 else [["raw", q3, hi], ["raw", mid, q3]]
+                cfg = {"wrapper": "interval", "t0": 0.0, "t1": 1.0, "shape": [16, 3] if levy in ("davie", "foster") else [64],
+                       "levy": levy, "entropy": rnd.randrange(2 ** 31), "dtype": rnd.choice(["float64", "float32"]),
+                       "cache_size": cache_a, "dt": None, "tol": 2.5e-6, "halfway": True, "user_W": False, "user_H": False,
+                       "grid": 1000}
+                yield {"kind": "dyadic", "cfg": cfg, "ops_a": [left, right] + refine, "ops_b": [right, left] + refine[::-1],
+                       "targets": [["raw", lo, hi], left, right, ["raw", lo, q1], ["raw", q1, mid], ["raw", mid, q3],
+                                   ["raw", q3, hi], ["raw", q1, q3]], "cache_b": cache_b}
+
+
 def _eq(x, y):
     if x is None or y is None:
         return x is None and y is None
